@@ -629,6 +629,12 @@ def shards(tier: str) -> list:
         full2 = (mode in (0, 2)) or not quick
         if full2:
             for f0 in range(NFORMS):
+                if f0 in local_first and mode < 2:
+                    # the largest sub-trees (6 mDNS x 6 OS outcomes for the first host): split on the second host's form
+                    for f1 in range(NFORMS):
+                        out.append({"fn": "h20b_resolve", "env": {"MGR": mode, "MAXH": 2, "FORM0": f0, "FORM1": f1}, "cond_timeout": 600,
+                                    "desc": f"async_resolve_host, 1..2 hosts, host forms {f0},{f1}, manager mode {mode}, all mDNS x OS outcomes"})
+                    continue
                 out.append({"fn": "h20b_resolve", "env": {"MGR": mode, "MAXH": 2, "FORM0": f0}, "cond_timeout": 600,
                             "desc": f"async_resolve_host, 1..2 hosts, first host form {f0}, manager mode {mode}, all mDNS x OS outcomes"})
         else:
